@@ -5,7 +5,7 @@
 use std::sync::{Arc, Mutex};
 use std::time::{Duration, Instant};
 
-use async_lsp::concurrency::ConcurrencyLayer;
+
 use async_lsp::server::LifecycleLayer;
 use serde_json::{json, Value};
 use tokio::io::{AsyncReadExt, AsyncWriteExt};
@@ -100,7 +100,7 @@ pub fn run(rest: &str) -> String {
         let (mainloop, _) = async_lsp::MainLoop::new_server(|client| {
             ServiceBuilder::new()
                 .layer(LifecycleLayer::default())
-                .layer(ConcurrencyLayer::default())
+
                 .service(lsp::server::Server::new_router(client))
         });
         tokio::spawn(async move {
